@@ -231,7 +231,7 @@ theorem toyKey_keyid : KeyIdOk toyKey.sig  := by
   | exact RabinProofs.toyKey_keyid ..
   | (apply RabinProofs.toyKey_keyid <;> assumption)
 
-/-- key validation refuses a modulus that is not positive (repair of finding F18) -/
+/-- key validation refuses a modulus that is not positive (repair of finding F17) -/
 theorem check_refuses_nonpositive_modulus (O : Oracles) (isPrime : Int → Bool) (K : PubKey) (fuel : Nat)
     (h : K.m ≤ 0) : check O isPrime K fuel = .ok false := by
   unfold check; simp [h]
